@@ -44,6 +44,9 @@ def run(ctx) -> None:
     ctx.rule("R1", "--dry: no FS_WRITE / VCS_MUTATE / HOOK / PROC reachable; diff path effects are read/echo/exit only")
     ctx.rule("R2", "diff path and write path agree on iterator, open keywords, rfd_from_content call, record, new_vinfo provenance")
     ctx.rule("R3", "every validation failure of the write path is also a failure of the diff path")
+    ctx.rule("R6", "prerequisite: the real run writes exactly the record the diff was computed from - lines joined with the file's separator, to the configured path itself (C04/R1, R2, R4)")
+    from sa.report import run_prerequisite
+    run_prerequisite(ctx, "C04", ("R1", "R2", "R4"), "R6")
     ctx.rule("R5", "up to the point where the diff is printed a dry run does what a real run does: no statement there mentions `dry` or runs depending on it")
     ctx.rule("R4", "the printed diff is the computed diff: between difflib and click.echo the text is only joined / split at line breaks and trimmed of trailing newlines")
 
